@@ -485,15 +485,19 @@ func (s *Server) handleRPCReplenishAccounts(stream net.Conn) error {
 
 	var depositSum types.Currency
 	var costResp rhp4.RPCReplenishAccountsResponse
+	// an account listed more than once is topped up once: a second deposit
+	// computed from the same balance would overshoot the target
+	seen := make(map[rhp4.Account]bool, len(req.Accounts))
 	for i, balance := range balances {
 		deposit := rhp4.AccountDeposit{
 			Account: req.Accounts[i],
 		}
 
 		value, underflows := req.Target.SubWithUnderflow(balance)
-		if !underflows {
+		if !underflows && !seen[req.Accounts[i]] {
 			deposit.Amount = value
 		}
+		seen[req.Accounts[i]] = true
 		depositSum = depositSum.Add(deposit.Amount)
 		costResp.Deposits = append(costResp.Deposits, deposit)
 	}
@@ -557,14 +561,17 @@ func (s *Server) handleRPCReplenishPools(stream net.Conn) error {
 
 	var depositSum types.Currency
 	var costResp rhp4.RPCReplenishAccountsResponse
+	// a pool listed more than once is topped up once (see handleRPCReplenishAccounts)
+	seen := make(map[rhp4.Account]bool, len(req.Accounts))
 	for i, balance := range balances {
 		deposit := rhp4.AccountDeposit{
 			Account: req.Accounts[i],
 		}
 		value, underflows := req.Target.SubWithUnderflow(balance)
-		if !underflows {
+		if !underflows && !seen[req.Accounts[i]] {
 			deposit.Amount = value
 		}
+		seen[req.Accounts[i]] = true
 		depositSum = depositSum.Add(deposit.Amount)
 		costResp.Deposits = append(costResp.Deposits, deposit)
 	}
